@@ -182,6 +182,14 @@ func (r *replayerUnderTest) slots() (slots []*sse.Message, head, tail, count int
 	return
 }
 
+// hidden: what the backing array references beyond the slice's length
+func (r *replayerUnderTest) hidden() []*sse.Message {
+	if r.finite != nil {
+		return sse.VerifFiniteHidden(r.finite)
+	}
+	return sse.VerifValidHidden(r.valid)
+}
+
 func showPutErr(err error) string {
 	switch {
 	case errors.Is(err, sse.ErrNoTopic):
@@ -252,7 +260,8 @@ func compressRuns(rs []string) string {
 func slotTags(r *replayerUnderTest, tags map[*sse.Message]int) (known map[int]bool, unknown bool, head, tail, count, n int) {
 	slots, head, tail, count := r.slots()
 	known = map[int]bool{}
-	for _, m := range slots {
+	// (n stays the slice's length: a reference kept beyond it counts like one kept in a dead slot)
+	for _, m := range append(slots[:len(slots):len(slots)], r.hidden()...) {
 		if m == nil {
 			continue
 		}
